@@ -55,7 +55,16 @@ pub fn read_cases(path: &str) -> Vec<Value> {
 /// Map every case to a list of events, in parallel, keeping the order of the cases.
 /// A panic escaping `f` becomes a `panic` event carrying the case.
 pub fn run_cases(inp: &str, outp: &str, f: impl Fn(&Value) -> Vec<Value> + Sync) {
-    let cases = read_cases(inp);
+    let mut cases = read_cases(inp);
+    // constants shared by all cases of a run (printed once by TLC as UNIVERSE)
+    if let Ok(up) = std::env::var("HARNESS_UNIVERSE") {
+        let u: Value = serde_json::from_str(&std::fs::read_to_string(&up).expect("universe file")).expect("universe json");
+        for c in cases.iter_mut() {
+            if let Some(o) = c.as_object_mut() {
+                o.insert("u".to_string(), u.clone());
+            }
+        }
+    }
     let n = cases.len();
     let threads = std::env::var("HARNESS_THREADS").ok().and_then(|s| s.parse().ok()).unwrap_or(8usize).max(1);
     let chunk = (n + threads - 1) / threads.max(1);
